@@ -97,8 +97,137 @@ Proof.
       assert (forallb (fun s => b_consistent (blk_of i (fst (fst s)))) segs = true) by (apply forallb_forall; exact Hall). congruence.
 Qed.
 
-(* the whole judgement: every operation's result satisfies OpSpec, and (not_found_classes) if the first
-   operation is a Get/ReadAt of a block for which every service answers 404, its error is BlockNotFound *)
+(* ------------------------------------------------------------------ the locator clauses (loc_ok) *)
+Definition FullRead (m : rmode) (rerr : err) : Prop :=
+  (m = MReadAll /\ (rerr = EEOF \/ rerr = ENil)) \/ (m = MWriteTo /\ rerr = ENil).
+
+(* every scripted 200 answer of the block declares its length *)
+Definition DeclaredOnly (bl : blockin) : Prop :=
+  forall row st body cut, In row (b_script bl) -> In (Resp st None body cut) row -> st <> 200%N.
+
+(* all blocks of the case that share the cache key of bl use bl's locator and declare their lengths *)
+Definition LocGuard (i : cin) (bl : blockin) : Prop :=
+  empty_block_loc (b_loc bl) = false /\
+  forall bl', In bl' (i_blocks i) -> loc_hash (b_loc bl') = loc_hash (b_loc bl) -> b_loc bl' = b_loc bl /\ DeclaredOnly bl'.
+
+(* a Get that returned a reader: announced size, digest and size of what a successful read delivered *)
+Record GetLocSpec (H : string -> string) (bl : blockin) (m : rmode) (size : nat) (bytes : string) (rerr cerr : err) : Prop := {
+  gl_size : forall n, size_hint (b_loc bl) = Some n -> size = n;
+  gl_hash : FullRead m rerr -> H bytes = loc_hash (b_loc bl);
+  gl_len : FullRead m rerr -> DeclaredOnly bl -> forall n, size_hint (b_loc bl) = Some n -> slen bytes = n;
+  gl_readfull : forall k, m = MReadFull k -> rerr = ENil -> cerr = ENil -> DeclaredOnly bl ->
+                forall n, size_hint (b_loc bl) = Some n -> k <= n /\ slen bytes = k
+}.
+
+(* a cached read of k bytes at offset off that reported success: it lies inside the locator's size, has the
+   length of that slice, and a read of the whole block has the locator's digest *)
+Record RdLocSpec (H : string -> string) (loc : string) (k off : nat) (bytes : string) : Prop := {
+  rl_hinted : forall n, size_hint loc = Some n ->
+              off <= n /\ slen bytes = Nat.min k (n - off) /\ (off = 0 -> n <= k -> H bytes = loc_hash loc);
+  rl_unhinted : size_hint loc = None -> off = 0 -> slen bytes < k -> H bytes = loc_hash loc
+}.
+
+Definition LocSpec (i : cin) (o : op) (r : ores) : Prop :=
+  match o, r with
+  | OGet b m, RGet gerr size srv bytes rerr cerr =>
+      gerr = ENil -> empty_block_loc (b_loc (blk_of i b)) = false ->
+      GetLocSpec (H_of i) (blk_of i b) m size bytes rerr cerr
+  | OReadAt b k off, RRead bytes e =>
+      LocGuard i (blk_of i b) -> e = ENil -> RdLocSpec (H_of i) (b_loc (blk_of i b)) k off bytes
+  | OGroup g b k off, RGroup l =>
+      LocGuard i (blk_of i b) -> forall r, In r l -> snd r = ENil -> RdLocSpec (H_of i) (b_loc (blk_of i b)) k off (fst r)
+  | OFile _ _, RFile _ _ => True
+  | _, _ => False
+  end.
+
+Lemma full_read_iff m rerr : full_read m rerr = true <-> FullRead m rerr.
+Proof.
+  unfold FullRead. destruct m as [|k| |], rerr; cbn; split; intros X; try discriminate; try reflexivity; auto;
+    try (destruct X as [[X _]|[X _]]; discriminate); try (destruct X as [[_ [X|X]]|[_ X]]; discriminate);
+    try (destruct X as [[X _]|[_ X]]; discriminate).
+Qed.
+
+Lemma declared_only_iff bl : declared_only bl = true <-> DeclaredOnly bl.
+Proof.
+  unfold declared_only, DeclaredOnly. rewrite forallb_forall. split.
+  - intros Hall row st body cut Hr Hin E. specialize (Hall row Hr). rewrite forallb_forall in Hall. specialize (Hall _ Hin).
+    cbn in Hall. subst st. discriminate.
+  - intros Hall row Hr. apply forallb_forall. intros [st [n|] body cut|] Hin; cbn; try reflexivity.
+    apply negb_true_iff. apply N.eqb_neq. eapply Hall; eassumption.
+Qed.
+
+Lemma loc_guard_iff i bl : loc_guard i bl = true <-> LocGuard i bl.
+Proof.
+  unfold loc_guard, LocGuard. rewrite andb_true_iff, negb_true_iff, forallb_forall. apply and_iff_compat_l. split.
+  - intros Hall bl' Hin Eh. specialize (Hall bl' Hin). rewrite orb_true_iff, negb_true_iff, andb_true_iff in Hall.
+    destruct Hall as [X|[A B]]; [apply String.eqb_neq in X; contradiction|].
+    apply String.eqb_eq in A. apply declared_only_iff in B. auto.
+  - intros Hall bl' Hin. rewrite orb_true_iff, negb_true_iff, andb_true_iff.
+    destruct (String.eqb_spec (loc_hash (b_loc bl')) (loc_hash (b_loc bl))) as [E|E]; [right|left; reflexivity].
+    destruct (Hall bl' Hin E) as [A B]. split; [apply String.eqb_eq; exact A|apply declared_only_iff; exact B].
+Qed.
+
+Lemma get_loc_ok_iff H bl m size bytes rerr cerr :
+  get_loc_ok H bl m size bytes rerr cerr = true <-> GetLocSpec H bl m size bytes rerr cerr.
+Proof.
+  unfold get_loc_ok. rewrite !andb_true_iff. split.
+  - intros [[[Hs Hh] Hl] Hd]. constructor.
+    + intros n E. rewrite E in Hs. apply Nat.eqb_eq. exact Hs.
+    + intros F. apply full_read_iff in F. rewrite F in Hh. cbn [negb orb] in Hh. apply String.eqb_eq. exact Hh.
+    + intros F D n E. apply full_read_iff in F. apply declared_only_iff in D. rewrite F, D, E in Hl. cbn [negb orb andb] in Hl.
+      apply Nat.eqb_eq. exact Hl.
+    + intros k -> -> -> D n E. apply declared_only_iff in D. rewrite D, E in Hd. cbn [negb orb] in Hd.
+      apply andb_true_iff in Hd. rewrite Nat.leb_le, Nat.eqb_eq in Hd. exact Hd.
+  - intros [Hs Hh Hl Hd]. split; [split; [split|]|].
+    + destruct (size_hint (b_loc bl)) as [n|]; [|reflexivity]. apply Nat.eqb_eq. apply Hs. reflexivity.
+    + destruct (full_read m rerr) eqn:F; [|reflexivity]. cbn [negb orb]. apply String.eqb_eq. apply Hh. apply full_read_iff. exact F.
+    + destruct (full_read m rerr) eqn:F; [|reflexivity]. destruct (declared_only bl) eqn:D; [|reflexivity]. cbn [negb orb andb].
+      destruct (size_hint (b_loc bl)) as [n|] eqn:E; [|reflexivity]. apply Nat.eqb_eq.
+      apply Hl; [apply full_read_iff; exact F|apply declared_only_iff; exact D|reflexivity].
+    + destruct m as [|k| |]; try reflexivity. destruct rerr; try reflexivity. destruct cerr; try reflexivity.
+      destruct (declared_only bl) eqn:D; [|reflexivity]. cbn [negb orb].
+      destruct (size_hint (b_loc bl)) as [n|] eqn:E; [|reflexivity].
+      destruct (Hd k eq_refl eq_refl eq_refl ltac:(apply declared_only_iff; exact D) n eq_refl) as [A B].
+      apply andb_true_iff. rewrite Nat.leb_le, Nat.eqb_eq. auto.
+Qed.
+
+Lemma rd_loc_ok_iff H loc k off r :
+  rd_loc_ok H loc k off r = true <-> (snd r = ENil -> RdLocSpec H loc k off (fst r)).
+Proof.
+  unfold rd_loc_ok. destruct (snd r) eqn:Er; try (split; [intros _ X; discriminate|reflexivity]).
+  split.
+  - intros Hb _. constructor.
+    + intros n E. rewrite E in Hb. rewrite !andb_true_iff, Nat.leb_le, Nat.eqb_eq in Hb. destruct Hb as [[A B] C].
+      split; [exact A|]. split; [exact B|]. intros -> Hn. apply Nat.leb_le in Hn. rewrite Hn in C. cbn in C. apply String.eqb_eq. exact C.
+    + intros E -> Hl. rewrite E in Hb. apply Nat.ltb_lt in Hl. rewrite Hl in Hb. cbn in Hb. apply String.eqb_eq. exact Hb.
+  - intros Hs. specialize (Hs eq_refl). destruct Hs as [Hh Hu]. destruct (size_hint loc) as [n|] eqn:E.
+    + destruct (Hh n eq_refl) as (A & B & C). rewrite !andb_true_iff, Nat.leb_le, Nat.eqb_eq. split; [split; assumption|].
+      destruct (off =? 0) eqn:E0; [|reflexivity]. destruct (n <=? k) eqn:E1; [|reflexivity]. cbn [andb negb orb].
+      apply String.eqb_eq. apply C; [apply Nat.eqb_eq; exact E0|apply Nat.leb_le; exact E1].
+    + destruct (off =? 0) eqn:E0; [|reflexivity]. destruct (slen (fst r) <? k) eqn:E1; [|reflexivity]. cbn [andb negb orb].
+      apply String.eqb_eq. apply Hu; [reflexivity|apply Nat.eqb_eq; exact E0|apply Nat.ltb_lt; exact E1].
+Qed.
+
+Theorem loc_ok_reflects i o r : loc_ok i o r = true <-> LocSpec i o r.
+Proof.
+  destruct o as [b m|b n off|k b n off|segs off], r as [gerr size srv bytes rerr cerr|bytes e|l|bytes e];
+    cbn [loc_ok LocSpec]; try (split; [discriminate|intros []]); try tauto.
+  - destruct gerr; try (split; [intros _ X; discriminate|reflexivity]).
+    destruct (empty_block_loc (b_loc (blk_of i b))); cbn [orb].
+    + split; [intros _ _ X; discriminate|reflexivity].
+    + rewrite get_loc_ok_iff. split; [intros X _ _; exact X|intros X; apply X; reflexivity].
+  - destruct (loc_guard i (blk_of i b)) eqn:G; cbn [negb orb].
+    + apply loc_guard_iff in G. rewrite rd_loc_ok_iff. cbn [fst snd]. split; [intros X _; exact X|intros X; apply X; exact G].
+    + split; [|reflexivity]. intros _ G'. apply loc_guard_iff in G'. congruence.
+  - destruct (loc_guard i (blk_of i b)) eqn:G; cbn [negb orb].
+    + apply loc_guard_iff in G. rewrite forallb_forall. split.
+      * intros X _ r Hr. apply rd_loc_ok_iff. apply X. exact Hr.
+      * intros X r Hr. apply rd_loc_ok_iff. apply X; assumption.
+    + split; [|reflexivity]. intros _ G'. apply loc_guard_iff in G'. congruence.
+Qed.
+
+(* the whole judgement: every operation's result satisfies OpSpec and LocSpec, and (not_found_classes) if the
+   first operation is a Get/ReadAt of a block for which every service answers 404, its error is BlockNotFound *)
 Definition NotFoundSpec (i : cin) (rs : list ores) : Prop :=
   match i_ops i, rs with
   | OGet b _ :: _, RGet gerr _ _ _ _ _ :: _ => first404 (blk_of i b) = true -> gerr = ENotFound
@@ -111,14 +240,20 @@ Proof. destruct a, b; cbn; split; intros X; try reflexivity; try discriminate. Q
 
 Theorem spec_b_reflects c :
   spec_b c = true <->
-  (Forall2 (OpSpec (c_in c)) (i_ops (c_in c)) (ob_res (c_obs c)) /\ NotFoundSpec (c_in c) (ob_res (c_obs c))).
+  (Forall2 (OpSpec (c_in c)) (i_ops (c_in c)) (ob_res (c_obs c)) /\ NotFoundSpec (c_in c) (ob_res (c_obs c)) /\
+   Forall2 (LocSpec (c_in c)) (i_ops (c_in c)) (ob_res (c_obs c))).
 Proof.
-  unfold spec_b. rewrite andb_true_iff.
+  unfold spec_b. rewrite !andb_true_iff.
+  assert (Hloc : forall ops rs, ops_loc_ok (c_in c) ops rs = true <-> Forall2 (LocSpec (c_in c)) ops rs).
+  { induction ops as [|o ops IH]; intros [|r rs]; cbn [ops_loc_ok]; try (split; [discriminate|intros X; inversion X]).
+    - split; [constructor|reflexivity].
+    - rewrite andb_true_iff, loc_ok_reflects, IH. split; [intros [A B]; constructor; assumption|intros X; inversion X; auto]. }
+  rewrite Hloc, and_assoc.
   assert (Hops : forall ops rs, ops_ok (c_in c) ops rs = true <-> Forall2 (OpSpec (c_in c)) ops rs).
   { induction ops as [|o ops IH]; intros [|r rs]; cbn [ops_ok]; try (split; [discriminate|intros X; inversion X]).
     - split; [constructor|reflexivity].
     - rewrite andb_true_iff, op_ok_reflects, IH. split; [intros [A B]; constructor; assumption|intros X; inversion X; auto]. }
-  rewrite Hops. apply and_iff_compat_l.
+  rewrite Hops. apply and_iff_compat_l. apply and_iff_compat_r.
   unfold notfound_ok, NotFoundSpec. destruct (i_ops (c_in c)) as [|o ops]; [tauto|].
   destruct o; try tauto; destruct (ob_res (c_obs c)) as [|r rs]; try tauto; destruct r; try tauto;
     rewrite orb_true_iff, negb_true_iff, err_eqb_eq; destruct (first404 (blk_of (c_in c) blk)); split; auto;
